@@ -236,3 +236,35 @@ Proof.
   - rewrite IHa; reflexivity.
 Qed.
 End SimpleBlkProofs.
+
+(** finite horizon = infinite semantics inside the exactness window: the truncated evaluation (paths padded with the
+    steady state from date T on, as Displace does) agrees with the evaluation on one-sided infinite sequences at every date t
+    whose largest forward reach t + maxlead e stays below T. *)
+Section Window.
+Variable R : Type.
+Variables (rO rI : R) (radd rmul rsub : R -> R -> R) (ropp : R -> R) (rdiv : R -> R -> R).
+Fixpoint maxlead (e : expr R) : Z :=
+  match e with
+  | EVar _ | ENum _ | ESs _ => 0
+  | EShift k e => Z.max 0 (k + maxlead e)
+  | ENeg e | EPow e _ => maxlead e
+  | EAdd a b | ESub a b | EMul a b | EDiv a b => Z.max (maxlead a) (maxlead b)
+  end.
+Lemma maxlead_nonneg e : 0 <= maxlead e.
+Proof. induction e; cbn [maxlead]; lia. Qed.
+
+Theorem finite_horizon_window_lemma T ss ssi env e : forall t, t + maxlead e < T ->
+  eval_td R rI radd rmul rsub ropp rdiv (Some T) ss ssi env e t = eval_td R rI radd rmul rsub ropp rdiv None ss ssi env e t.
+Proof.
+  induction e as [x|c|k e IH|e IH|e IH|a IHa b IHb|a IHa b IHb|a IHa b IHb|a IHa b IHb|a IHa n]; intros t Ht; cbn [SimpleBlk.eval_td maxlead] in *;
+    try reflexivity.
+  - pose proof (maxlead_nonneg e). destruct (t + k <? 0); [reflexivity|].
+    replace (T <=? t + k) with false by lia. apply IH. lia.
+  - rewrite IH by assumption. reflexivity.
+  - rewrite IHa, IHb by lia. reflexivity.
+  - rewrite IHa, IHb by lia. reflexivity.
+  - rewrite IHa, IHb by lia. reflexivity.
+  - rewrite IHa, IHb by lia. reflexivity.
+  - rewrite IHa by assumption. reflexivity.
+Qed.
+End Window.
